@@ -42,7 +42,7 @@ LayoutFree(P) == [f \in Fields |-> IF f \in LayoutFields THEN Default[f] ELSE P[
 IsDecl(x) == x.k = "decl"
 IsLen(c) == c.t \in {"DIMENSION", "PERCENTAGE"} \/ (c.t = "NUMBER" /\ c.x = "0")
 ValidValue(name, v) ==
-    CASE name \in {"left", "top", "width", "height"} -> Len(v) = 1 /\ IsLen(v[1])
+    CASE name \in {"left", "top", "right", "bottom", "width", "height"} -> Len(v) = 1 /\ IsLen(v[1])
       [] name = "margin"      -> Len(v) \in 1..4 /\ \A i \in 1..Len(v) : IsLen(v[i])
       [] name = "color"       -> Len(v) = 1 /\ v[1].t = "COLOR_VALUE"
       [] name = "content"     -> Len(v) >= 1 /\ \A i \in 1..Len(v) : v[i].t = "STRING"
@@ -53,7 +53,9 @@ ValidIn(ctx, name, v) ==
     ELSE ValidValue(name, v)
 
 \* ---- variables: the last definition of a name in the sheet wins; references are resolved component-wise ---------------
-VarRef == [x \in {"var(c)", "var(w)", "var(nope)"} |-> CASE x = "var(c)" -> "c" [] x = "var(w)" -> "w" [] OTHER -> "nope"]
+\* a reference with a fallback resolves like one without when the variable is defined, and is kept as written when it is not
+VarRef == [x \in {"var(c)", "var(w)", "var(nope)", "var(w, 2px)", "var(nope, 2px)"} |->
+              CASE x = "var(c)" -> "c" [] x \in {"var(w)", "var(w, 2px)"} -> "w" [] OTHER -> "nope"]
 VarDecls(sheet) == FlattenSeq([i \in 1..Len(sheet) |-> IF sheet[i].k = "variables" THEN sheet[i].vars ELSE <<>>])
 Defined(V, n) == \E i \in 1..Len(V) : V[i].name = n
 ValueOf(V, n) == V[Max({i \in 1..Len(V) : V[i].name = n})].value
